@@ -329,6 +329,36 @@ func (e *env) run(kind string) (bool, string) {
 		}
 		e.inject(message.Acknowledgement, codes.Content, q2.MID, q2.Token, message.Options{{ID: message.Block2, Value: blk(0, 1, false)}}, []byte{2, 2, 2, 2})
 		return c.wait(), outcome(c)
+	case "bwDownStall":
+		// a download that stalls after its first block while the application's own request (which it built and still holds) is
+		// pending; the transfer timeout passes and the sweep runs; then the caller gives up. The request is the application's all
+		// the time: nobody else gives it back, nobody changes it.
+		req, err := cc.NewGetRequest(ctx, p)
+		if err != nil {
+			return true, "err"
+		}
+		if e.tr != nil {
+			e.tr.Own(req)
+		}
+		c := e.async(func() (*pool.Message, error) { return cc.Do(req) })
+		q, ok := e.waitOut(pathIs(p))
+		if ok {
+			e.inject(message.Acknowledgement, codes.Content, q.MID, q.Token, message.Options{{ID: message.Block2, Value: blk(0, 0, true)}}, bytes.Repeat([]byte{1}, 16))
+			if q2, ok2 := e.waitOut(pathIs(p)); ok2 {
+				e.inject(message.Acknowledgement, codes.Empty, q2.MID, nil, nil, nil) // acknowledged, never answered
+			}
+			cc.CheckExpirations(time.Now().Add(4 * time.Second)) // past the transfer timeout, the request still waits
+		}
+		cancel()
+		okw := c.wait()
+		if e.tr != nil {
+			e.tr.AppRelease(req)
+		}
+		cc.ReleaseMessage(req)
+		if !ok {
+			return false, "norequest"
+		}
+		return okw, outcome(c)
 	case "obsOK", "obsFail", "obsSilentCancel", "obsAckedCancel", "obsNoObs205", "obsNoObs203":
 		var o interface {
 			Cancel(ctx context.Context, opts ...message.Option) error
@@ -540,13 +570,20 @@ func (e *env) run(kind string) (bool, string) {
 			e.taken[i] = true
 		}
 		return ok, "served"
-	case "srvReq", "srvReqNon", "srvReqNoResp", "srvBwUpAbandon", "srvBwDownAbandon":
+	case "srvReq", "srvReqDup", "srvReqNon", "srvReqNoResp", "srvBwUpAbandon", "srvBwDownAbandon":
 		tok := []byte{0x5e, byte(e.n)}
 		mid := e.nextMID()
 		from := e.u.Sess.OutLen()
 		switch kind {
 		case "srvReq":
 			e.inject(message.Confirmable, codes.GET, mid, tok, message.Options{{ID: message.URIPath, Value: []byte("small")}}, nil)
+		case "srvReqDup": // the peer's request arrives, is answered, and arrives twice more (same message ID): answered from the cache
+			for k := 0; k < 3; k++ {
+				e.inject(message.Confirmable, codes.GET, mid, tok, message.Options{{ID: message.URIPath, Value: []byte("small")}}, nil)
+				if !hooks.WaitFor(conns.WD, func() bool { return e.u.Sess.OutLen() > from+k }) {
+					return false, "unanswered"
+				}
+			}
 		case "srvReqNon":
 			e.inject(message.NonConfirmable, codes.GET, mid, tok, message.Options{{ID: message.URIPath, Value: []byte("small")}}, nil)
 		case "srvReqNoResp":
